@@ -109,7 +109,9 @@ def cache_state(pobj):
     if pobj.readerror:
         return ['err', pobj.readerror.name, str(pobj.readerror), pobj.timestamp or None]
     try:
-        return ['ok', json.loads(json.dumps(pobj.export_value())), pobj.timestamp or None]
+        # (the transport form straight from the datatype, not through Parameter.export_value: the ground truth must
+        # not share a cache or a shortcut with the code which builds the messages)
+        return ['ok', json.loads(json.dumps(pobj.datatype.export_value(pobj.value))), pobj.timestamp or None]
     except Exception as e:     # noqa
         return ['unexportable', repr(e), None, pobj.timestamp]
 
